@@ -15,7 +15,7 @@ THEOREMS = ["C10_unique_data_spec", "C10_seq_bytes_unchanged", "C10_relocation_s
             "C10_unique_string_terminates", "C10_identifiers_unique_valid", "C10_linker_idempotent_query",
             "C10_pcm_region_sound_partial", "C10_offset_window_counterexample",
             "C10_pcm_histories_partial", "C10_pcm_later_songs_keep_partial", "C10_reader_agreement", "C10_stored_once", "C10_song_resolves_partial", "C10_group_key_agrees",
-            "C10_resolver_songs_partial"]
+            "C10_resolver_songs_partial", "C10_full_bank_partial", "C10_full_bank_fresh_partial"]
 LEVEL = "proof"
 STREAM = "link.out"
 CHUNK = 20
